@@ -60,6 +60,35 @@ def restrict_to_policy(res, labels):
     return out
 
 
+def close_over_callees(repo, specs, units, sel, run):
+    """A property is decided by its own contracts AND by every contract those lean on at a call site (modular
+    verification: a caller is checked against the callee's contract, so the callee's contract has to be discharged
+    too).  `run(list of units) -> results`; returns (selected units, results) closed under `callee contracts used`."""
+    by_key = {}
+    for u in units:
+        if u[0] == 'contract':
+            by_key.setdefault(u[1], []).append(u)
+    sel = list(sel)
+    have = set(R.unit_label(u) for u in sel)
+    results = {}
+    todo = list(sel)
+    while todo:
+        for r in run(todo):
+            results[r['label']] = r
+        nxt = []
+        for u in todo:
+            r = results[R.unit_label(u)]
+            for key in (r.get('used_contracts') or []):
+                for cu in by_key.get(key, []):
+                    lab = R.unit_label(cu)
+                    if lab not in have:
+                        have.add(lab)
+                        sel.append(cu)
+                        nxt.append(cu)
+        todo = nxt
+    return sel, [results[R.unit_label(u)] for u in sel]
+
+
 def load_known(path=None):
     path = path or os.path.join(VERIF, 'known_findings.json')
     if not os.path.exists(path):
@@ -146,8 +175,17 @@ def main(argv):
         print('checker error: no contract serves %s' % pid)
         return 3
     pol = policy_units(repo, specs, units, pid, sel)
-    res, ncached = run_cached(repo, specs, sel + pol, jobs, timeout_ms, repo_root, tier)
-    res = restrict_to_policy(res, set(R.unit_label(u) for u in pol))
+    counts = [0]
+
+    def run(us):
+        rs, nc = run_cached(repo, specs, us, jobs, timeout_ms, repo_root, tier)
+        counts[0] += nc
+        return rs
+    sel, res = close_over_callees(repo, specs, units, sel, run)
+    have = set(R.unit_label(u) for u in sel)
+    pol = [u for u in pol if R.unit_label(u) not in have]
+    res = res + restrict_to_policy(run(pol), set(R.unit_label(u) for u in pol))
+    ncached = counts[0]
     known = load_known()
     ledger = load_ledger().get(pid)
     code, report = evaluate(pid, res, known, ledger, repo_root, tier)
@@ -421,9 +459,12 @@ def do_ledger(repo_root, jobs):
         if not any(u[0] == 'contract' for u in sel):
             continue
         pol = policy_units(repo, specs, units, pid, sel)
+        sel, sel_res = close_over_callees(repo, specs, units, sel, lambda us: [by_label[R.unit_label(u)] for u in us])
+        have = set(R.unit_label(u) for u in sel)
+        pol = [u for u in pol if R.unit_label(u) not in have]
         pol_res = restrict_to_policy([by_label[R.unit_label(u)] for u in pol], set(R.unit_label(u) for u in pol))
         ent = {}
-        for r in [by_label[R.unit_label(u)] for u in sel] + pol_res:
+        for r in sel_res + pol_res:
             keys = []
             real = [o for o in r['obligations'] if o['kind'] != 'canary']
             ent[r['label']] = {'hash': r.get('fn_hash'), 'proved': keys,
